@@ -21,8 +21,8 @@ GT = "geo_types::geometry::"
 
 def run(rep, tier):
     rep.explanation = ("Clamp / mirror tables of the Line and LineString interpolation entry points, the ratio-to-distance reduction, and the segment "
-                       "count and interior points of densify_between, all from MIR path tables with calls uninterpreted. The arc-length identities "
-                       "themselves are numeric and not decided.")
+                       "count and interior points of densify_between, all from MIR path tables with calls uninterpreted; R15.6 / R15.7 evaluate the "
+                       "arc-length identities on witness line strings through the extracted tables. For arbitrary inputs they are numeric and not decided.")
     rep.trusted = ["rustc MIR", "the metric space's point_at_*_between and length"]
     rep.assumptions = []
     F = Facts("default")
